@@ -136,7 +136,7 @@ def enumerate_mutations(path):
             muts.append(("rename_index", i))
     muts.append(("add_table",))
     muts.append(("add_view",))
-    for t in list(sig["tables"])[:3]:
+    for t in sig["tables"]:
         muts.append(("add_index", t))
     con.close()
     return muts
